@@ -130,7 +130,7 @@ pub fn build(g: &Grammar, thorough: bool) -> Vec<Case9> {
     let sites = referrers("X");
     for (label, ns, referrer) in &sites {
         for tk in kinds_of(*ns) {
-            for overlap in ["absent", "identical", "conflict", "conflict+merge-taken"] {
+            for overlap in ["absent", "identical", "conflict", "conflict+merge-taken", "conflict+merge-name-in-B"] {
                 for novelty in ["new", "conflicting"] {
                     if referrer.name.is_empty() && novelty == "conflicting" {
                         continue; // singletons are all-or-nothing
@@ -143,6 +143,18 @@ pub fn build(g: &Grammar, thorough: bool) -> Vec<Case9> {
                         "conflict+merge-taken" => {
                             a.push(e(tk, "X", "c2"));
                             a.push(e(tk, "X.MERGE", "c1"));
+                        }
+                        "conflict+merge-name-in-B" => {
+                            // B itself holds an element with the name the conflicting X would get, referenced by a second referrer
+                            a.push(e(tk, "X", "c2"));
+                            b.push(e(tk, "X.MERGE", "c3"));
+                            if !referrer.name.is_empty() {
+                                if let Some((_, _, r2)) = referrers("X.MERGE").into_iter().find(|(l, _, _)| l == label) {
+                                    let mut r2 = r2;
+                                    r2.name = "R2".into();
+                                    b.push(r2);
+                                }
+                            }
                         }
                         _ => {}
                     }
@@ -225,7 +237,7 @@ pub fn run(tier: &str) -> Run {
         }
     }
     run.require("reference structure preserved", 500);
-    run.rule = "every reference position of the grammar (60 referrer shapes incl. positions nested in AXIS_DESCR / OVERWRITE / VAR_CRITERION and the singletons MOD_COMMON, VARIANT_CODING) x every kind of the target namespace x target overlap {absent, identical, conflicting, conflicting and X.MERGE taken} x referrer {new, conflicting}; a same-named conflicting element in another namespace; identifier positions that are not references (criterion names, OVERWRITE name, DISPLAY_IDENTIFIER) equal to a renamed object name; thorough: all pairs of positions. Oracle: the element that represents B's referrer holds, at every position, the name of the element that represents its original target (observed renaming).".into();
+    run.rule = "every reference position of the grammar (60 referrer shapes incl. positions nested in AXIS_DESCR / OVERWRITE / VAR_CRITERION and the singletons MOD_COMMON, VARIANT_CODING) x every kind of the target namespace x target overlap {absent, identical, conflicting, conflicting and X.MERGE taken in A, conflicting and X.MERGE present in B with its own referrer} x referrer {new, conflicting}; a same-named conflicting element in another namespace; identifier positions that are not references (criterion names, OVERWRITE name, DISPLAY_IDENTIFIER) equal to a renamed object name; thorough: all pairs of positions. Oracle: the element that represents B's referrer holds, at every position, the name of the element that represents its original target (observed renaming).".into();
     run.assumptions = vec!["elements of B that are shared as identical are A's elements (their references are A's)".into()];
     run
 }
